@@ -112,6 +112,8 @@ def is_scalar(v):
 def kind_of(v):
     if hasattr(v, "force"):
         v = v.force()
+    if hasattr(v, "as_sv"):
+        v = v.as_sv()
     if isinstance(v, SV):
         return v.k
     return lit(v)[0]
@@ -120,6 +122,8 @@ def kind_of(v):
 def term(v):
     if hasattr(v, "force"):
         v = v.force()
+    if hasattr(v, "as_sv"):
+        v = v.as_sv()
     if isinstance(v, SV):
         return v.t
     return lit(v)[1]
